@@ -14,7 +14,7 @@ static MVec<Block> blocks;
 static uintptr_t bump;
 static unsigned long live_n, live_b, total_n;
 constexpr size_t RZ = 16;
-static struct { uintptr_t lo, hi; } excl[8]; static int n_excl;
+static struct { uintptr_t lo, hi; } excl[64]; static int n_excl;
 
 void heap_init() {
     void *p = mmap((void *)HEAP_BASE, HEAP_SIZE, PROT_READ | PROT_WRITE, MAP_PRIVATE | MAP_ANONYMOUS | MAP_FIXED_NOREPLACE | MAP_NORESERVE, -1, 0);
@@ -111,7 +111,7 @@ namespace dsim {
 void set_heap_fill(int byte) { rt::G.heap_fill = byte & 0xff; }
 void exclude_alloc_fn(const void *lo, const void *hi) {
     for (int i = 0; i < rt::n_excl; i++) if (rt::excl[i].lo == (uintptr_t)lo) return;
-    if (rt::n_excl < 8) { rt::excl[rt::n_excl].lo = (uintptr_t)lo; rt::excl[rt::n_excl].hi = (uintptr_t)hi; rt::n_excl++; }
+    if (rt::n_excl < 64) { rt::excl[rt::n_excl].lo = (uintptr_t)lo; rt::excl[rt::n_excl].hi = (uintptr_t)hi; rt::n_excl++; }
 }
 }
 
